@@ -136,7 +136,9 @@ def build(case):
     rng.scale = 0 if case['index'] % 4 == 3 else 1
     ids = Ids()
     objects = {'flags': 3, 'tracked': [0, 1, {'set': [1]}, 1.0, {'mode': 1}, {'coarse': [0, 1]}],
-               'resources': [{'kind': 'resources', 'levels': {'a': 2, 'b': 1}}]}
+               'resources': [{'kind': 'resources', 'levels': {'a': 2, 'b': 1}}],
+               # (flags that are deep copies of one idle template flag)
+               'cloned': case['index'] % 6 == 1}
     n_tasks = rng.choice([0, 0, 1, 2])
     tasks = ['T%d' % index for index in range(n_tasks)]
     roots = []
@@ -145,9 +147,19 @@ def build(case):
             {'op': 'wait', 'n': {'k': 'delay', 'd': rng.choice(GRID if rng.scale == 1 else DEC)},
              'id': ids('h')}]}
             for name in tasks]
+        body = []
+        if rng.random() < 0.4:
+            # some of the tasks do not get to their end: they are volatile and still running when
+            # their block is left, or the block is an until() block whose deadline cuts them off -
+            # a task that is forcefully closed is done as well, and whoever waits for that (from
+            # outside of the block) has to hear of it
+            for child in children:
+                child['volatile'] = rng.random() < 0.6
+            body = [{'op': 'wait', 'n': {'k': 'delay', 'd': rng.choice(
+                GRID if rng.scale == 1 else DEC)}, 'id': ids('hb')}]
         roots.append({'name': 'helpers', 'steps': [
             {'op': 'scope', 'id': ids('hs'), 'n': None, 'catch': False, 'children': children,
-             'body': []}]})
+             'body': body}]})
     # drivers: bursts of changes, several per time step (reverting ones included); with two
     # drivers a change can be reverted *before* the waiter it woke gets its turn
     for driver_no in range(rng.choice([1, 1, 2, 3])):
